@@ -153,14 +153,13 @@ class CharacterClass(MutableSet[int]):
 
     def __isub__(self, other: AbstractSet[Any]) -> 'CharacterClass':
         if isinstance(other, CharacterClass):
-            if self.negative:
-                if other.negative:
-                    self.positive |= (other.negative - self.negative)
-                    self.negative.clear()
-                self.negative |= other.positive
-            elif other.negative:
-                self.positive &= other.negative
-            self.positive -= other.positive
+            if other.negative:
+                # the other class is positive | ~negative: keep what is in negative - positive
+                self._discard_negated(other.negative - other.positive)
+            else:
+                self.positive -= other.positive
+                if self.negative:
+                    self.negative |= other.positive
             return self
         return NotImplemented
 
@@ -225,8 +224,7 @@ class CharacterClass(MutableSet[int]):
                     if self.negative:
                         self.negative |= value()
                 else:
-                    self.positive &= value()
-                    self.negative.clear()
+                    self._discard_negated(value())
 
             elif part.startswith('\\p') or part.startswith('\\P'):
                 if self._re_unicode_ref.search(part) is None:
@@ -238,14 +236,25 @@ class CharacterClass(MutableSet[int]):
                     # XSD 1.1 supports Is prefix to match Unicode blocks
                     if not self.xsd_version or not part[3:].startswith('Is'):
                         raise
-                    self.positive -= UnicodeSubset([(0, maxunicode + 1)])
+                    self.clear()
                 else:
                     if part.startswith('\\p'):
                         self.positive -= subset
+                        if self.negative:
+                            self.negative |= subset
                     else:
-                        self.negative -= subset
+                        self._discard_negated(subset)
             else:
                 self.positive.difference_update(part)
+                if self.negative:
+                    self.negative.update(part)
+
+    def _discard_negated(self, subset: UnicodeSubset) -> None:
+        # removing ~subset keeps (positive | ~negative) & subset
+        if self.negative:
+            self.positive |= subset - self.negative
+            self.negative.clear()
+        self.positive &= subset
 
     def clear(self) -> None:
         self.positive.clear()
